@@ -42,19 +42,19 @@ PROPS["C12"] = dict(
 
 
 PROPS["C01"] = dict(
-    slices=["network", "net_enum", "tour_pos", "tour_mod", "path", "tour_ctor", "sched_guard", "json_writer", "spawn_vehicle", "add_path", "override_reassign", "fit_reassign"],
+    slices=["network", "net_enum", "tour_pos", "tour_mod", "path", "tour_ctor", "sched_guard", "json_writer", "spawn_vehicle", "add_path", "override_reassign", "fit_reassign", "dummy_ops"],
     witness_family="tour",
     level_text="Verus proves on the real code: can_reach equals the documented timing rule; Tour::new_allow_invalid returns Ok exactly for node sequences that start at a start depot, end at an end depot, have only activities in between, at least one of them, and are pairwise connectable; replace_start_depot, replace_end_depot, remove and insert_path (given a connected path, which Path::new is proved to establish) preserve that invariant (Tour::wf); successors/predecessors enumerate exactly the connectable nodes. The schedule-level type guard check_receiver_type_compatibility returns true only if every moved node is compatible with the receiver's vehicle type. the JSON writer (vehicle_to_json) emits exactly the nodes of the tour it is given, in order, with the nodes' own data. spawn_vehicle_for_path refuses a path with a node that is not compatible with the vehicle type and gives the new vehicle exactly the given nodes (plus depots at the ends). add_path_to_vehicle_tour refuses a path with an incompatible node and keeps a compatible tour compatible; override_reassign refuses an incompatible segment",
     level_note="trusted: vstd, key-model axioms, derived Eq/Ord, the SeqIter shim, to_vec/Option::or/Result::unwrap_or specs, A-fmt; stub: Tour::position_of; A-path (paths handed to insert_path are connected) and A-type (compatible_with_vehicle_type guards in schedule/modifications.rs) are caller-side assumptions; A-text / A-serde for the writer",
     scope="tour-level feasibility invariant under the constructor and all four modifiers of solution/src/tour",
     assumptions=A_COMMON + A_ITER + [
         "A-path: every path handed to Tour::insert_path of a real vehicle is connected (holds for Path::new and paths cut from real tours; dummy-tour paths rely on the triangle inequality, D9)",
-        "A-type: of the compatible_with_vehicle_type guards at schedule level, check_receiver_type_compatibility, the guards of spawn_vehicle_for_path, add_path_to_vehicle_tour and override_reassign are proved; fit_reassign are proved; spawn_vehicle_to_replace_dummy_tour is not yet under contract",
+        "A-type: of the compatible_with_vehicle_type guards at schedule level, check_receiver_type_compatibility, the guards of spawn_vehicle_for_path, add_path_to_vehicle_tour and override_reassign are proved; fit_reassign and spawn_vehicle_to_replace_dummy_tour are all proved",
         "A-text / A-serde: text rendering of values and serde_json::to_value are opaque (see C03)",
     ],
 )
 PROPS["C10"] = dict(
-    slices=["network", "tour_pos", "tour_mod", "path", "sched_guard", "admission", "train_formation_update", "update_tours", "remove_segment", "spawn_vehicle", "add_path", "override_reassign", "fit_reassign", "sched_ctor"],
+    slices=["network", "tour_pos", "tour_mod", "path", "sched_guard", "admission", "train_formation_update", "update_tours", "remove_segment", "spawn_vehicle", "add_path", "override_reassign", "fit_reassign", "sched_ctor", "dummy_ops"],
     witness_family="tour",
     level_text="clause 1 (every vehicle tour is a chronological path of connectable nodes from a start depot to an end depot with activities in between): same obligations as C01 on the Tour constructor and modifiers; cycle-membership clause: update_transitions_and_violation_fast keeps every type's rotation cycles well formed w.r.t. the new tours with exactly the new real vehicles of the type as members (under the stated caller-side precondition: no vehicle listed twice); formation, track and depot limits: the admission checks vehicle_replacement_in_train_formation and can_depot_spawn_vehicle_custom_usage are exact and update_train_formation applies them to exactly the moved nodes (same obligations as C02); sorted listings: update_tours keeps the vehicle and dummy listings sorted, duplicate-free and matching the maps; formation/tour agreement: the whole modifications under contract (remove_segment, spawn_vehicle_for_path, add_path_to_vehicle_tour, override_reassign) add / remove the vehicle in the formations of exactly the nodes its tour gains / loses; the base case: Schedule::empty satisfies the schedule invariants the modification slices take as precondition (ids, listings, usage table, formations, transitions) and from_tours re-establishes them after every spawn; that this holds for every reachable schedule (the dummy operations, and the re-establishment of every invariant by every modification) is NOT decided",
     level_note="same trusted base and caller-side assumptions as C01",
@@ -85,7 +85,7 @@ PROPS["C03"] = dict(
 )
 PROPS["C09"] = dict(
     kani=True,
-    slices=["tour_mod", "formation", "transition", "depot_usage", "sched_guard", "train_formation_update", "update_tours", "remove_segment", "spawn_vehicle", "add_path", "override_reassign", "fit_reassign", "sched_ctor", "depot_ops"],
+    slices=["tour_mod", "formation", "transition", "depot_usage", "sched_guard", "train_formation_update", "update_tours", "remove_segment", "spawn_vehicle", "add_path", "override_reassign", "fit_reassign", "sched_ctor", "depot_ops", "dummy_ops"],
     witness_family="tour",
     level_text="tour level: Verus proves that compute_*_of_nodes (and hence new_computing / every freshly built tour) equal the from-scratch meaning of the five cached figures written from the property text, and that replace_start_depot, replace_end_depot, remove and insert_path keep all five caches exact (delta formulas = recomputation), including tours through the infinitely distant overflow depot; schedule level: the depot-usage table stays exact for the updated vehicle and untouched for all others under update_depot_usage (from-scratch meaning: spawned/despawned sets per depot and type), depot_balance / total_depot_balance_violation are the sizes' differences resp. their absolute sum, Schedule::empty starts every aggregate at its from-scratch value (compute_unserved_passengers = the sum over all service trips) and from_tours keeps them exact, the depot-only operations (reassign_end_depots_greedily, improve_depots, recompute_transitions_for) keep costs, depot usage and the violation sum exact, update_tour_and_costs applies exactly the cost delta, update_tours (the common bookkeeping of fit/override_reassign) applies exactly the cost delta of the replaced / removed real tours and keeps the depot-usage table exact for provider and receiver and untouched for everyone else, update_train_formation changes the unserved-passengers pair by exactly - Σ unserved(old formation) + Σ unserved(new formation) over the moved service trips, update_transitions_and_violation_fast and set_next_day_transitions keep the schedule's maintenance violation equal to the sum of the per-type totals; the other schedule aggregates (costs across whole modifications, unserved passengers) are NOT decided",
     level_note="trusted: as C01 plus A-iter sums (Sum for Distance/Duration folds with +; integer sums do not wrap); Network::bounded magnitudes are a stated precondition",
@@ -93,9 +93,9 @@ PROPS["C09"] = dict(
     assumptions=A_COMMON + A_ITER + ["Schedule.{costs, unserved_passengers, maintenance_violation, depot_usage} delta updates are not under contract"],
 )
 PROPS["C13"] = dict(
-    slices=["formation", "train_formation_update", "update_tours", "remove_segment", "spawn_vehicle", "add_path", "override_reassign", "fit_reassign", "depot_ops"],
+    slices=["formation", "train_formation_update", "update_tours", "remove_segment", "spawn_vehicle", "add_path", "override_reassign", "fit_reassign", "depot_ops", "dummy_ops"],
     witness_family=None,
-    level_text="last sentence and the formation frame: Verus proves that TrainFormation::replace puts the new vehicle at the replaced one's position, add_at_tail appends, remove keeps the order, and replace/remove return Err iff the vehicle is absent; Schedule::update_train_formation (the formation bookkeeping of every modification) gives every moved non-depot node exactly the replacement that vehicle_replacement_in_train_formation specifies for its old formation, leaves the formations of all other nodes untouched, and refuses iff one replacement is refused; Schedule::update_tours replaces exactly the provider's and the receiver's tour (a provider without new tour disappears from tours / vehicles / its sorted listing, a dummy provider from the dummy tours and listing), leaves every other vehicle, tour, dummy tour and listing untouched and passes the formation update through; Schedule::remove_segment as a whole modification: the provider loses exactly the segment (or the whole-tour case delegates to replace_vehicle_by_dummy), the removed service trips are handed back in exactly one new dummy tour with a fresh id (none if there is no service trip), every other tour, the vehicle set, the formations of all other nodes stay untouched, the aggregates follow (costs, unserved passengers, depot usage, transitions); Tour::new_dummy keeps exactly the service trips in order; Schedule::spawn_vehicle_for_path adds exactly one vehicle with a fresh id whose tour is the given path in order with depots at the ends (defect D12), inserts the id at its sorted position, changes no other tour, vehicle, dummy or listing, and the aggregates follow; Schedule::override_reassign: the provider loses exactly the segment (or disappears), the receiver's tour is the insertion of the removed path, the displaced service trips go to exactly one new dummy tour with a fresh id, a real receiver leaves the formations of every displaced node whether or not a dummy tour is created, formations elsewhere and all other tours untouched; Schedule::add_path_to_vehicle_tour: the vehicle's tour is prefix + whole path + suffix, the returned conflict path is exactly the dropped block, the vehicle joins the formations of the path and leaves those of the dropped block, it is refused exactly for an incompatible node, a full start depot or a full formation; depot-only operations (reassign_end_depots_greedily, improve_depots, improve_depots_of_tour, recompute_transitions_for) change no activity: every tour keeps its inner nodes in order, only the first / last node may be replaced by a depot node, everything else is untouched; Schedule::fit_reassign with its greedy helper fit_path_into_tour (full verbatim body, `while let` with `continue`): the moved nodes are a duplicate-free sub-sequence of the segment, the provider keeps exactly its other nodes (or disappears when only depots are left), the receiver keeps all its activities and gains exactly the moved ones, no new dummy, formations of the moved nodes get provider replaced by receiver; WHICH conflict-free nodes the greedy search moves is not specified; delete_dummy and replace_vehicle_by_dummy as whole modifications are NOT yet decided",
+    level_text="last sentence and the formation frame: Verus proves that TrainFormation::replace puts the new vehicle at the replaced one's position, add_at_tail appends, remove keeps the order, and replace/remove return Err iff the vehicle is absent; Schedule::update_train_formation (the formation bookkeeping of every modification) gives every moved non-depot node exactly the replacement that vehicle_replacement_in_train_formation specifies for its old formation, leaves the formations of all other nodes untouched, and refuses iff one replacement is refused; Schedule::update_tours replaces exactly the provider's and the receiver's tour (a provider without new tour disappears from tours / vehicles / its sorted listing, a dummy provider from the dummy tours and listing), leaves every other vehicle, tour, dummy tour and listing untouched and passes the formation update through; Schedule::remove_segment as a whole modification: the provider loses exactly the segment (or the whole-tour case delegates to replace_vehicle_by_dummy), the removed service trips are handed back in exactly one new dummy tour with a fresh id (none if there is no service trip), every other tour, the vehicle set, the formations of all other nodes stay untouched, the aggregates follow (costs, unserved passengers, depot usage, transitions); Tour::new_dummy keeps exactly the service trips in order; Schedule::spawn_vehicle_for_path adds exactly one vehicle with a fresh id whose tour is the given path in order with depots at the ends (defect D12), inserts the id at its sorted position, changes no other tour, vehicle, dummy or listing, and the aggregates follow; Schedule::override_reassign: the provider loses exactly the segment (or disappears), the receiver's tour is the insertion of the removed path, the displaced service trips go to exactly one new dummy tour with a fresh id, a real receiver leaves the formations of every displaced node whether or not a dummy tour is created, formations elsewhere and all other tours untouched; Schedule::add_path_to_vehicle_tour: the vehicle's tour is prefix + whole path + suffix, the returned conflict path is exactly the dropped block, the vehicle joins the formations of the path and leaves those of the dropped block, it is refused exactly for an incompatible node, a full start depot or a full formation; depot-only operations (reassign_end_depots_greedily, improve_depots, improve_depots_of_tour, recompute_transitions_for) change no activity: every tour keeps its inner nodes in order, only the first / last node may be replaced by a depot node, everything else is untouched; Schedule::fit_reassign with its greedy helper fit_path_into_tour (full verbatim body, `while let` with `continue`): the moved nodes are a duplicate-free sub-sequence of the segment, the provider keeps exactly its other nodes (or disappears when only depots are left), the receiver keeps all its activities and gains exactly the moved ones, no new dummy, formations of the moved nodes get provider replaced by receiver; WHICH conflict-free nodes the greedy search moves is not specified; replace_vehicle_by_dummy (the vehicle disappears from vehicles / tours / its listing, its service trips go to one new dummy tour with a fresh id, it leaves the formations of exactly its activities), delete_dummy (exactly the dummy tour and its id disappear) and spawn_vehicle_to_replace_dummy_tour (= delete_dummy then spawn_vehicle_for_path, type guard first) complete the list: every public modification of solution/src/schedule/modifications.rs is under contract",
     level_note="trusted: vstd Vec specs (push, swap_remove, remove, clone), SeqIter::position, A-clone (derived Clone of Vehicle returns an equal value)",
     scope="solution/src/train_formation.rs",
     assumptions=["A-iter: SeqIter::position = first index satisfying the predicate", "A-clone: derived Clone returns an equal value"],
@@ -134,20 +134,20 @@ PROPS["C16"] = dict(
 )
 
 PROPS["C04"] = dict(
-    slices=["objective", "depot_usage", "sched_guard", "admission", "tour_mod", "reassign", "train_formation_update", "update_tours", "remove_segment", "sched_ctor"],
+    slices=["objective", "objective_eval", "depot_usage", "sched_guard", "admission", "tour_mod", "reassign", "train_formation_update", "update_tours", "remove_segment", "sched_ctor"],
     witness_family="tour",
-    level_text="per-function links of the chain 'reported component = independent evaluation': Verus proves on the real code that each of the four indicators of solver/src/objective.rs reports exactly the schedule's aggregate of its name (unserved passengers: the pair added; maintenance violation; number of real vehicles; costs) and that objective::build arranges them as the four hierarchy levels in the order unserved passengers, maintenance violation, vehicle count, costs, each with coefficient one; that the aggregates equal their recomputation is proved where C09 proves it: the five per-tour caches incl. costs under every tour operation, compute_unserved_passengers_at_node (per-segment shortfall), the schedule's maintenance violation = sum over the installed transitions under update_transitions_and_violation_fast and set_next_day_transitions (defect D10 was exactly a C04 violation), the schedule's costs follow the tours' costs under reassign_end_depots_consistent_with_transitions, transition totals = sum of positive parts of the cycle counters (C15). The composition over a whole history of schedule modifications (Schedule.costs and unserved_passengers across fit/override_reassign, spawn, delete) is NOT decided",
+    level_text="per-function links of the chain 'reported component = independent evaluation': Verus proves on the real code that each of the four indicators of solver/src/objective.rs reports exactly the schedule's aggregate of its name (unserved passengers: the pair added; maintenance violation; number of real vehicles; costs) and that objective::build arranges them as the four hierarchy levels in the order unserved passengers, maintenance violation, vehicle count, costs, each with coefficient one; rapid_solve's own evaluation code is verified as well (pinned crate source, Integer cases): LinearCombination::evaluate = sum of coefficient * indicator, Objective::evaluate = the vector of the level values with the solution kept, so the reported vector is exactly [unserved, violation, vehicle count, costs] of the evaluated schedule (lemma_reported_vector); that the aggregates equal their recomputation is proved where C09 proves it: the five per-tour caches incl. costs under every tour operation, compute_unserved_passengers_at_node (per-segment shortfall), the schedule's maintenance violation = sum over the installed transitions under update_transitions_and_violation_fast and set_next_day_transitions (defect D10 was exactly a C04 violation), the schedule's costs follow the tours' costs under reassign_end_depots_consistent_with_transitions, transition totals = sum of positive parts of the cycle counters (C15). The composition over a whole history of schedule modifications (Schedule.costs and unserved_passengers across fit/override_reassign, spawn, delete) is NOT decided",
     level_note="trusted: A-dyn (hand-declared trait Indicator with evaluate only; a boxed indicator evaluates like its impl), A-im, `as i64` casts stated as cast values plus exactness when the number fits; A-lib: rapid_solve's Objective::evaluate (sum per level, lexicographic comparison) and ObjectiveValue printing are not under contract; base of C09/C15",
     scope="solver/src/objective.rs (all of it except Indicator::name); the aggregate-maintaining functions listed under C09",
     assumptions=A_COMMON + A_ITER + [
         "A-dyn: dynamic dispatch on Box<dyn Indicator> runs the impl's evaluate; Indicator::name (JSON keys of the objective value) not under contract",
-        "A-lib: rapid_solve::objective::Objective::evaluate computes each level as sum(coefficient * indicator) and orders lexicographically",
+        "A-lib (remaining): only the Integer variants of rapid_solve's BaseValue / Coefficient arithmetic are under contract (the objective built here uses no others); Objective::objective_value_to_json (the JSON keys and numbers of objectiveValue) is not under contract",
         "whole-history composition of the schedule aggregates (costs, unserved passengers) across all schedule modifications is not machine-checked",
     ],
 )
 
 PROPS["C07"] = dict(
-    slices=["limits", "mcf_bounds", "admission", "objective", "train_formation_update", "remove_segment"],
+    slices=["limits", "mcf_bounds", "admission", "objective", "objective_eval", "train_formation_update", "remove_segment"],
     witness_family="net",
     level_text="the per-function links: Verus proves on the real code that number_of_vehicles_required_to_serve is the exact ceiling (enough vehicles for passengers and seated passengers, and not one more), that the flow stage puts the lower bound min(required, combined formation limit) and the upper bound = combined limit on every trip edge (R8 fragments of solve_for_vehicle_type), that compute_unserved_passengers_at_node is max(0, demand - capacity of the formation) per component, and -- as a lemma over these contracts -- that a formation of at least `required` vehicles of the segment's type leaves nobody behind while a formation capped at k vehicles leaves exactly demand - k * capacity; unserved passengers is the first objective level (C04.build); the schedule's unserved-passengers pair follows the formations exactly under update_train_formation and remove_segment (the bookkeeping later stages rely on). That the circulation returned by the network simplex respects the bounds, that flow units are decoded into formations of that size, and that the local search never accepts a worse first level are assumptions (A-lib), so the equality with the instance's lower bound for every returned schedule is NOT decided end to end",
     level_note="trusted: as C02; A-lib: rs_graph::mcf::network_simplex returns a feasible circulation, rapid_solve's acceptance rule is lexicographic in the level order; the decoding of the flow into tours (solve_for_vehicle_type after the solver call) is pinned by a skeleton hash, not verified",
@@ -162,7 +162,7 @@ PROPS["C07"] = dict(
 
 ALL_SLICES = ["time", "network", "net_enum", "limits", "json_out", "tour_pos", "tour_mod", "path", "tour_ctor", "formation", "transition",
               "tsp_ranges", "admission", "reassign", "pipeline", "mcf_bounds", "sched_guard", "depot_usage", "network_new", "json_writer",
-              "objective", "train_formation_update", "update_tours", "remove_segment", "spawn_vehicle", "add_path", "override_reassign", "sched_ctor", "depot_ops", "fit_reassign"]
+              "objective", "train_formation_update", "update_tours", "remove_segment", "spawn_vehicle", "add_path", "override_reassign", "sched_ctor", "depot_ops", "fit_reassign", "dummy_ops", "objective_eval"]
 PROPS["C06"] = dict(
     slices=["time", "network_new", "tsp_ranges", "mcf_bounds", "limits", "objective", "pipeline", "json_out", "transition", "sched_ctor"],
     thorough_slices=ALL_SLICES,
@@ -177,8 +177,20 @@ PROPS["C06"] = dict(
     ],
 )
 
+PROPS["C08"] = dict(
+    slices=["objective", "objective_eval"],
+    witness_family=None,
+    level_text="the order only: Verus proves on the real code (solver/src/objective.rs and the pinned rapid_solve source) that the objective the local search is built with has the four levels unserved passengers, maintenance violation, vehicle count, costs in this order, each 1 * indicator of the schedule's aggregate, that Objective::evaluate yields exactly this vector and that ObjectiveValue::cmp / partial_cmp on two such vectors is the LEXICOGRAPHIC order of the four numbers (first differing level decides). That ParallelLocalSearchSolver accepts a neighbour only if it is strictly smaller in this order (std's default `<` from partial_cmp, rapid_solve's improvers under rayon), that the result is therefore never worse than the start solution, and the fixpoint claim are NOT decided",
+    level_note="trusted: A-dyn (a boxed indicator evaluates like its impl), A-iter / A-std shims for zip, fold, Ordering::then_with; only the Integer variants of BaseValue are in scope; rapid_solve's local-search loop (rayon, channels) is not under contract",
+    scope="solver/src/objective.rs::build; rapid_solve::objective::{ObjectiveValue::cmp / partial_cmp, BaseValue::cmp / partial_cmp / add / sum, Coefficient * BaseValue, LinearCombination::evaluate, Objective::evaluate}",
+    assumptions=A_COMMON + [
+        "the acceptance rule, the termination and the fixpoint property of rapid_solve's ParallelLocalSearchSolver (rayon, channels, function_between_steps) are not under contract",
+        "std's default PartialOrd::lt (a < b iff partial_cmp == Some(Less)) and the derived Ord of EvaluatedSolution are assumed",
+        "A-dyn, A-iter (zip / fold trace semantics), A-std (Ordering::then_with)",
+    ],
+)
+
 NOT_APPLICABLE = {
-    "C08": "the acceptance rule and fixpoint live in rapid_solve (rayon, channels, dyn objects); trajectory property. The one per-function part, the level order unserved passengers / maintenance violation / vehicle count / costs of objective::build, is proved under C04 (C04.build.*)",
     "C11": "neighbourhood candidates are compositions of schedule-level modifications generated under rayon; outside per-function contracts. The schedule-level modifications the swaps are composed of are under contract one by one (C13 / C09 / C10: remove_segment, override_reassign, add_path_to_vehicle_tour, spawn_vehicle_for_path, improve_depots, recompute_transitions_for), each under the schedule invariants as precondition; that every modification re-establishes ALL of them (the induction the property needs) is proved only in part, and the Swap::apply compositions and the rayon generator are not under contract",
     "C14": "optimality of the circulation returned by rs_graph::mcf::network_simplex; the network construction is a 230-line loop over HashMaps with I/O. Per-function parts that are proved elsewhere: the edge bounds of the flow network (C02 / C07 / C06, slice mcf_bounds), the predecessor enumeration (C17) and, for the last sentence, Schedule::from_tours turns every given tour into the tour of exactly one vehicle (obligation C14.from_tours.one_vehicle_per_given_tour in slice sched_ctor, run under C09 / C10); the decomposition of the circulation into tours (solve_for_vehicle_type after the solver call) is not under contract",
     "C18": "HTTP concurrency and fault isolation across tokio tasks: no thread support in Verus (without rewriting to its permission types) or Kani",
